@@ -267,8 +267,8 @@ func (s *Separable) AD(x ad.ConstVector) ad.MagicScalar {
 			t.Mul(t, cf(s.A[i]))
 			y.Add(y, t)
 		} else {
-			t.Mul(d, d)       // d^2
-			u.Mul(t, t)       // d^4
+			t.Mul(d, d) // d^2
+			u.Mul(t, t) // d^4
 			u.Mul(u, cf(s.A[i]))
 			t.Mul(t, cf(s.B[i]))
 			y.Add(y, u)
